@@ -33,6 +33,14 @@ class Progress:
         self.defs = {}
         self.stuck = {}
         self.validate_primitives()
+        # check_any(&[kinds]) = kinds.iter().any(|k| self.check(*k)): recognised only while it has that shape
+        ca = w.fns.get(P + 'check_any')
+        self.check_any_ok = False
+        if ca is not None:
+            clos = [g for g in w.fns.values() if g.kind == 'Closure' and g.parent == ca.path]
+            self.check_any_ok = len(clos) == 1 and [callee_name(t) for _, t in clos[0].calls()] == [P + 'check'] and \
+                any(strip_generics(callee_name(t) or '').endswith('Iterator::any') or (callee_name(t) or '').endswith('::any') for _, t in ca.calls()) and \
+                not any(callee_name(t) in (P + 'advance', P + 'match_token', P + 'consume') for _, t in ca.calls())
 
     # ---- constant resolution ------------------------------------------------------------------------------------
     def fdefs(self, f):
@@ -74,6 +82,36 @@ class Progress:
                                 return s['r'].get('v')
                 return None
             return self.kind_const(f, r['o'], depth + 1)
+        return None
+
+    def kind_list(self, f, o, depth=0):
+        """the TokenKind constants of a constant array / slice operand (`&[TokenKind::A, TokenKind::B]`), or None"""
+        pl = op_place(o)
+        if pl is None or depth > 6 or [e for e in pl.get('p', []) if e != '*']:
+            return None
+        rs = self.fdefs(f).get(pl['l'], [])
+        if len(rs) != 1:
+            return None
+        r = rs[0]
+        if r.get('rv') in ('ref',):
+            return self.kind_list(f, {'c': {'l': r['p']['l']}}, depth + 1) if not [e for e in r['p'].get('p', []) if e != '*'] else None
+        if r.get('rv') == 'cast':
+            return self.kind_list(f, r['o'], depth + 1)
+        if r.get('rv') == 'use':
+            k = (r.get('o') or {}).get('k')
+            if k is not None and 'promoted[' in str(k.get('s', '')):
+                i = int(k['s'].split('promoted[')[1].split(']')[0])
+                pr = f.raw.get('promoted', [])
+                if i < len(pr):
+                    body = [s for b in pr[i]['blocks'] for s in b['s']]
+                    if any(s['r'].get('rv') == 'agg' and s['r'].get('array') for s in body):
+                        ks = [s['r']['v'] for s in body if s['r'].get('rv') == 'agg' and s['r'].get('adt') == TK]
+                        return frozenset(ks) if ks else None
+                return None
+            return self.kind_list(f, r['o'], depth + 1)
+        if r.get('rv') == 'agg' and r.get('array'):
+            ks = [self.kind_const(f, x) for x in r['ops']]
+            return frozenset(ks) if ks and all(ks) else None
         return None
 
     def which_token(self, f, o, depth=0):
@@ -232,6 +270,11 @@ class Progress:
                 if k is None:
                     return [(nxt, st, None)], True
                 return [(nxt, st, (dl, frozenset({k}), True))], True
+            if n == P + 'check_any' and self.check_any_ok and len(t['args']) >= 2:
+                ks = self.kind_list(f, t['args'][1])
+                if ks:
+                    return [(nxt, st, (dl, ks, True))], True
+                return [(nxt, st, None)], True
             if prim == 'match_token':
                 k = self.kind_const(f, t['args'][1])
                 if k is None:
@@ -380,12 +423,11 @@ def t9(rep, w):
     r = rep.rule('T9', 'no loop of the parser can go round without consuming a token, whatever kind the current token has (abstract interpretation over token-kind sets)', floor=8)
     pg = Progress(w)
     rounds = pg.solve()
-    # anchors: what must come out for the result to mean anything
-    for need in ('parse_precedence', 'expression', 'statement', 'declaration'):
-        if pg.stuck.get(P + need) != frozenset():
-            raise Broken('C03', 'anchor', 'T9: Parser::%s is not recognised as always consuming a token (may return unconsumed on %s)' % (need, sorted(pg.stuck.get(P + need, ['?']))[:4]))
-    if pg.stuck.get(P + 'block') is None or not pg.stuck[P + 'block'] <= {'Eof'}:
-        raise Broken('C03', 'anchor', 'T9: Parser::block may return unconsumed on %s (expected: only at end of input)' % sorted(pg.stuck.get(P + 'block', ['?']))[:4])
+    # what the summaries say about the pillars of the argument (evidence; a pillar that no longer holds shows up below as a loop that spins)
+    for need in ('parse_precedence', 'expression', 'statement', 'declaration', 'block'):
+        if P + need not in pg.stuck:
+            raise Broken('C03', 'anchor', 'T9: Parser::%s is not part of the analysed token-driven functions' % need)
+        r.note('Parser::%s can return without having consumed a token for: %s' % (need, sorted(pg.stuck[P + need])[:6] or 'no kind'))
     r.ok('%d functions that test or consume tokens summarised in %d rounds; always consuming: %d' % (len(pg.live), rounds, sum(1 for f in pg.live if not pg.stuck[f.path])))
     loops = 0
     for f in sorted(pg.live, key=lambda x: x.path):
